@@ -44,6 +44,8 @@ func constString(v ssa.Value) (string, bool) {
 // globalConstString: value of a package-level string variable that is never reassigned
 // (initialised once in the package initialiser with a constant).
 func (p *Prog) globalConstString(g *ssa.Global) (string, bool) {
+	p.mu.Lock()
+	defer p.mu.Unlock()
 	if p.globalStr == nil {
 		p.globalStr = map[*ssa.Global]*string{}
 		stores := map[*ssa.Global]int{}
